@@ -1,54 +1,133 @@
-import Log4rsModel.Rolling.LemmasRoller
+import Log4rsModel.Rolling.Ext06Lemmas
+import Log4rsModel.Rolling.Ext06WriteLemmas
+import Log4rsModel.Rolling.LemmasWindow
 /-
 C06 — Size trigger rolls exactly when the limit is exceeded; size accounting is exact.
-Model: `Rolling/Model.lean` (`append`, `getWriter`, `process`) with `sizeTrigger N`
-(`len_estimate() > limit`, post-process). Histories are arbitrary lists of appends (any record, any
-chunking, any injected roller fault), restarts and clock ticks, from any initial disk, in append and
-truncate mode.
+
+Model: `Rolling/Model.lean` (`append`, `appendFail`, `getWriter`, `process`) with `sizeTrigger N`
+(`len_estimate() > limit`, post-process). Histories (`Spec06.Op6`): appends of any record with any
+chunking and any injected roller fault, appends whose encoder fails, restarts with the same or a
+CHANGED mode / limit, clock ticks; from any initial disk, in append and truncate mode. The
+executable statement is `Spec06.okEntry` / `Spec06.go` (`Rolling/Ext06Spec.lean`), which the driver
+evaluates on the real probe values; `C06_model_meets_spec` proves the model satisfies it. The byte
+counter is not definitional: `Rolling/Ext06Write.lean` models `LogWriter::write` with a short-write
+oracle and the `write_all` loop; `C06_write_all_accounting` / `C06_counting_appender_is_model`.
+
+Clause map
+  S1/S2 rotation iff the append leaves > N bytes      C06_rolls_iff_exceeds, C06_shown_is_disk_plus_record,
+        (never earlier, never deferred)               C06_model_meets_spec (calls = [shown > N], also when the roller fails;
+                                                      restarts / ticks / failed encodes: no consultation, no request)
+  S4    afterwards ≤ N or just rotated away            C06_bounded_after_append, C06_after_failed_roll
+  S5/S6 shown = true size incl. pre-existing content   C06_len_is_disk_size, C06_open_seeds_len, C06_restart_seeds,
+                                                      C06_write_all_accounting, C06_counting_appender_is_model
+  S7/S8 any bytes, below / above the buffer            the theorems quantify over all byte lists and lengths
+  contracts of the rollers                              C06_rollers_honour_contract; C06_self_archiving_roller_unbounded (negative)
 -/
 namespace Log4rs.Rolling
 open Log4rs.Roller
 
 variable {σ : Type}
 
-/-- the rolling appender with a size trigger of limit `N` and any roller -/
-def sizeCfg (path : Path) (appendMode : Bool) (N : Nat) (roll : RollFn) : Cfg Unit :=
-  { path, appendMode, trig := sizeTrigger N, roll }
+/-! ### S5 / S6 the size shown is the size on disk -/
 
 /-- At every policy consultation of every history — whatever the trigger and the roller — the
 length shown to the policy (`len_estimate()`) equals the true size of the active file on disk at
-that moment: append mode seeds the counter from the pre-existing size, truncate mode empties the
-file at the appender's first open and starts from 0, and every later reopen (after a roll, failed
-or not) seeds the counter from the size found. -/
-theorem C06_len_is_disk_size (cfg : Cfg σ) (d : Disk) (t0 : σ) (now : Nat) (ops : List Op) :
-    ∀ e ∈ trace cfg (init cfg d t0 now) ops, ∀ out, e.1 = some out → ∃ L, out.consult = some (L, L) := by
-  refine trace_forall cfg (P := WF cfg) (Q := fun e => ∀ out, e.1 = some out → ∃ L, out.consult = some (L, L))
-    ?_ ops _ (WF_init cfg d t0 now)
-  intro s op hwf
-  refine ⟨WF_applyOp cfg s op hwf, ?_⟩
-  cases op with
-  | append r f =>
-    intro out h
-    have := (append_wf cfg s r (faultFn f) hwf).2
-    simp only [applyOp] at h
-    rw [← Option.some.inj h]
-    exact this
-  | restart => intro out h; simp [applyOp] at h
-  | tick dt => intro out h; simp [applyOp] at h
+that moment. Histories over `XOp`: appends (any roller fault), appends whose encoder fails,
+restarts, ticks. -/
+theorem C06_len_is_disk_size (cfg : Cfg σ) (d : Disk) (t0 : σ) (now : Nat) (ops : List XOp) :
+    ∀ e ∈ traceX cfg (init cfg d t0 now) ops, ∀ out, e.1 = some out → ∀ c, out.consult = some c → c.1 = c.2 := by
+  have key : ∀ (ops : List XOp) (s : St σ), WF cfg s →
+      ∀ e ∈ traceX cfg s ops, ∀ out, e.1 = some out → ∀ c, out.consult = some c → c.1 = c.2 := by
+    intro ops
+    induction ops with
+    | nil => intro s _ e he; simp [traceX] at he
+    | cons op ops ih =>
+      intro s hwf e he
+      simp only [traceX, List.mem_cons] at he
+      rcases he with rfl | he
+      · intro out hout c hc
+        cases op with
+        | appendFail r n f =>
+          cases hpre : cfg.trig.pre with
+          | true =>
+            obtain ⟨hcc, _⟩ := appendFail_pre_spec cfg s r n (faultFn f) hwf hpre _ _
+              (appendFail cfg s r n (faultFn f)).1 (appendFail cfg s r n (faultFn f)).2 rfl rfl rfl
+            simp only [applyX] at hout
+            rw [← Option.some.inj hout, hcc] at hc
+            rw [← Option.some.inj hc]
+          | false =>
+            have := (appendFail_post_spec cfg s r n (faultFn f) hwf hpre).1
+            simp only [applyX] at hout
+            rw [← Option.some.inj hout, this] at hc
+            cases hc
+        | op o =>
+          cases o with
+          | append r f =>
+            obtain ⟨L, hL⟩ := (append_wf cfg s r (faultFn f) hwf).2
+            simp only [applyX, applyOp] at hout
+            rw [← Option.some.inj hout, hL] at hc
+            rw [← Option.some.inj hc]
+          | restart => simp [applyX, applyOp] at hout
+          | tick dt => simp [applyX, applyOp] at hout
+      · exact ih _ (WF_applyX cfg s op hwf) e he
+  exact key ops _ (WF_init cfg d t0 now)
 
-/-- One append with a size trigger: the size shown is exactly what was in the file when the writer
-was (re)opened plus the bytes of the record, and the roller is invoked iff that size exceeds `N` —
-never earlier, never deferred. -/
+/-- the size at the first open: append mode keeps the pre-existing content and counts it, truncate
+mode empties the file and starts from 0 -/
+theorem C06_open_seeds_len (cfg : Cfg σ) (d : Disk) (t0 : σ) (now : Nat) :
+    Opened cfg (init cfg d t0 now) (if cfg.appendMode then fileOf cfg d else []) := by
+  have h := (getWriter_spec cfg { disk := d, writer := none, tst := cfg.trig.reinit t0 now, now := now, opened := false } (Or.inl rfl)).1
+  simpa [openView, init, build] using h
+
+/-- ALL RESTARTS, also with a changed configuration: dropping the appender and building a new one
+on the same path — any mode, any limit, any trigger, any roller — opens the file with the counter
+equal to the size of what it holds: everything that was on disk in append mode, nothing (file
+emptied) in truncate mode. -/
+theorem C06_restart_seeds (cfg cfg' : Cfg σ) (hp : cfg'.path = cfg.path) (s : St σ) (hwf : WF cfg s) :
+    Opened cfg' (build cfg' (dropWriter cfg s)) (if cfg'.appendMode then fileOf cfg s.disk else []) := by
+  have hdrop : (dropWriter cfg s).disk.get? cfg.path = s.disk.get? cfg.path := by
+    unfold dropWriter
+    cases hw : s.writer with
+    | none => rfl
+    | some w =>
+      rcases hwf.2 with h | ⟨a, w', hw', hb, hg, _⟩
+      · rw [hw] at h; cases h
+      · rw [hw] at hw'
+        have : w' = w := (Option.some.inj hw').symm
+        subst this
+        simp only [flushW, hb, List.append_nil]
+        rw [fileOf_of_get hg, DiskL.get?_set_self]
+        exact hg.symm
+  let s1 : St σ :=
+    { dropWriter cfg s with writer := none, tst := cfg'.trig.reinit (dropWriter cfg s).tst (dropWriter cfg s).now, opened := false }
+  have h := (getWriter_spec cfg' s1 (Or.inl rfl)).1
+  have hov : openView cfg' s1 = if cfg'.appendMode then fileOf cfg s.disk else [] := by
+    show (if cfg'.appendMode || false then fileOf cfg' (dropWriter cfg s).disk else []) = _
+    have : fileOf cfg' (dropWriter cfg s).disk = fileOf cfg s.disk := by
+      unfold fileOf
+      rw [hp, hdrop]
+    rw [this]
+    cases cfg'.appendMode <;> rfl
+  rw [hov] at h
+  exact h
+
+/-! ### S1 / S2 rotation exactly when the limit is exceeded -/
+
+/-- One append with a size trigger, from any well-formed state: the size shown is exactly the size
+of the file ON DISK before the append plus the bytes of the record, it equals the true size at the
+consultation, and the roller is invoked iff it exceeds `N` — never earlier, never deferred; it
+reports success (`rolled = some true`) iff moreover the roller succeeds. -/
 theorem C06_rolls_iff_exceeds (path : Path) (am : Bool) (N : Nat) (roll : RollFn) (s : St Unit)
     (r : Rec) (fault : Nat → Bool) (hwf : WF (sizeCfg path am N roll) s) :
-    let L := (openView (sizeCfg path am N roll) s).length + (encBytes r).length
+    let L := (fileOf (sizeCfg path am N roll) s.disk).length + (encBytes r).length
     (append (sizeCfg path am N roll) s r fault).1.consult = some (L, L) ∧
     ((append (sizeCfg path am N roll) s r fault).1.rolled.isSome ↔ L > N) := by
   intro L
   obtain ⟨hc, _, _, _, hno, _, hyes⟩ :=
     append_post_spec (sizeCfg path am N roll) s r fault hwf rfl _ _
       (append (sizeCfg path am N roll) s r fault).1 (append (sizeCfg path am N roll) s r fault).2 rfl rfl rfl
-  have hL : (openView (sizeCfg path am N roll) s ++ encBytes r).length = L := by simp [L]
+  have hL : (openView (sizeCfg path am N roll) s ++ encBytes r).length = L := by
+    rw [openView_of_opened _ s hwf.1]; simp [L]
   rw [hL] at hc hno hyes
   refine ⟨hc, ?_⟩
   by_cases hgt : L > N
@@ -60,79 +139,212 @@ theorem C06_rolls_iff_exceeds (path : Path) (am : Bool) (N : Nat) (roll : RollFn
       simp [sizeCfg, sizeTrigger, hgt]
     simp [(hno hans).2.1, hgt]
 
-/-- The same over whole histories: in every history, at every append, the roller runs iff the true
-size of the active file after the write exceeds `N`. -/
-theorem C06_rolls_iff_exceeds_history (path : Path) (am : Bool) (N : Nat) (roll : RollFn) (d : Disk) (now : Nat)
-    (ops : List Op) :
-    ∀ e ∈ trace (sizeCfg path am N roll) (init (sizeCfg path am N roll) d () now) ops, ∀ out, e.1 = some out →
-      ∃ L, out.consult = some (L, L) ∧ (out.rolled.isSome ↔ L > N) := by
-  refine trace_forall _ (P := WF (sizeCfg path am N roll))
-    (Q := fun e => ∀ out, e.1 = some out → ∃ L, out.consult = some (L, L) ∧ (out.rolled.isSome ↔ L > N))
-    ?_ ops _ (WF_init _ d () now)
-  intro s op hwf
-  refine ⟨WF_applyOp _ s op hwf, ?_⟩
-  cases op with
-  | append r f =>
-    intro out h
-    simp only [applyOp] at h
-    rw [← Option.some.inj h]
-    exact ⟨_, C06_rolls_iff_exceeds path am N roll s r (faultFn f) hwf⟩
-  | restart => intro out h; simp [applyOp] at h
-  | tick dt => intro out h; simp [applyOp] at h
+/-- The same at every append of EVERY history (failing encoders, restarts with changed mode/limit,
+roller faults, ticks before it): after any history `pre`, an append shows the policy exactly
+`|file on disk after pre| + |record|`, which is the true size at that moment, and invokes the
+roller iff that exceeds the limit then in force. -/
+theorem C06_shown_is_disk_plus_record (path : Path) (roll : RollFn) (am : Bool) (N : Nat) (d : Disk) (now : Nat)
+    (pre : List Spec06.Op6) (r : Rec) (f : Option Nat) :
+    let s := Spec06.final6 path roll (Spec06.init6 path roll am N d now) pre
+    let L := ((s.st.disk.get? path).getD []).length + (encBytes r).length
+    ∃ out, (Spec06.apply6 path roll s (.x (.op (.append r f)))).1 = some out ∧
+      out.consult = some (L, L) ∧ (out.rolled.isSome ↔ L > s.limit) := by
+  intro s L
+  have hwf := Spec06.WF_final6 path roll pre _ (Spec06.WF_init6 path roll am N d now)
+  exact ⟨_, rfl, C06_rolls_iff_exceeds path s.am s.limit roll s.st r (faultFn f) hwf⟩
+
+/-- THE LINK BETWEEN PROOF AND EXECUTABLE SPEC. For every roller that honours the two contracts
+(`RollGone`: after `Ok` the file is gone; `RollErrKeeps`: after `Err` the file is untouched or
+gone), any initial disk, both modes, any limit, and every history of `Op6` — appends with any
+roller fault, failing encoders, restarts with the same or a changed mode/limit, ticks — the
+observations of the model (Ok/Err, every consultation's shown and true size, number of roller
+invocations, size of the file afterwards) pass `Spec06.go`, the check the driver runs on the real
+code: exactly one consultation per successful encode, `shown = actual = size before + |record|`,
+roller invoked iff `shown > limit` (also when it then fails), afterwards rotated away / exactly
+`shown` bytes, restarts keep (append) or empty (truncate) the file, failed encodes and ticks change
+nothing and consult nothing. -/
+theorem C06_model_meets_spec (path : Path) (roll : RollFn) (hgone : RollGone roll path) (herr : RollErrKeeps roll path)
+    (am : Bool) (N : Nat) (d : Disk) (now : Nat) (ops : List Spec06.Op6) :
+    let s0 := Spec06.init6 path roll am N d now
+    Spec06.go 0 (Spec06.sOf path s0) (Spec06.evsOf path roll s0 ops)
+      ((Spec06.trace6 path roll s0 ops).map (Spec06.entryOf path)) = none := by
+  intro s0
+  exact Spec06.trace6_meets_spec path roll hgone herr ops s0 (Spec06.WF_init6 path roll am N d now) 0
+
+/-- … and the observer's initial state is what the open left: the pre-existing size in append mode,
+an emptied file in truncate mode -/
+theorem C06_spec_initial_size (path : Path) (roll : RollFn) (am : Bool) (N : Nat) (d : Disk) (now : Nat) :
+    (Spec06.sOf path (Spec06.init6 path roll am N d now)).size =
+      some (if am then ((d.get? path).getD []).length else 0) := by
+  obtain ⟨_, _, _, hg, _⟩ := C06_open_seeds_len (sizeCfg path am N roll) d () now
+  show ((init (sizeCfg path am N roll) d () now).disk.get? path).map List.length = _
+  have hg' : (init (sizeCfg path am N roll) d () now).disk.get? path =
+      some (if am then ((d.get? path).getD []) else []) := hg
+  rw [hg']
+  cases am <;> rfl
+
+/-! ### S4 the bound, and what a failing roller leaves -/
 
 /-- After every successful append of every history the active file has just been rotated away or
-holds at most `N` bytes — including `N = 0`, a pre-existing file larger than `N` and restarts —
-for every roller that honours `Roll::roll`'s contract (`RollGone`). -/
-theorem C06_bounded_after_append (path : Path) (am : Bool) (N : Nat) (roll : RollFn) (hroll : RollGone roll path)
-    (d : Disk) (now : Nat) (ops : List Op) :
-    ∀ e ∈ trace (sizeCfg path am N roll) (init (sizeCfg path am N roll) d () now) ops, ∀ out, e.1 = some out →
-      out.res = .ok → e.2.disk.get? path = none ∨ ∃ a, e.2.disk.get? path = some a ∧ a.length ≤ N := by
-  refine trace_forall _ (P := WF (sizeCfg path am N roll))
-    (Q := fun e => ∀ out, e.1 = some out → out.res = .ok →
-      e.2.disk.get? path = none ∨ ∃ a, e.2.disk.get? path = some a ∧ a.length ≤ N)
-    ?_ ops _ (WF_init _ d () now)
-  intro s op hwf
-  refine ⟨WF_applyOp _ s op hwf, ?_⟩
-  cases op with
-  | restart => intro out h; simp [applyOp] at h
-  | tick dt => intro out h; simp [applyOp] at h
-  | append r f =>
-    intro out h hok
-    simp only [applyOp] at h ⊢
-    have hout := (Option.some.inj h).symm
-    obtain ⟨_, _, _, _, hno, herr, hyes⟩ :=
-      append_post_spec (sizeCfg path am N roll) s r (faultFn f) hwf rfl _ _
-        (append (sizeCfg path am N roll) s r (faultFn f)).1 (append (sizeCfg path am N roll) s r (faultFn f)).2 rfl rfl rfl
-    by_cases hgt : (openView (sizeCfg path am N roll) s ++ encBytes r).length > N
-    · have key : ∀ L, L > N → ((sizeCfg path am N roll).trig.fire s.tst L s.now).1 = .yes := by
-        intro L h; simp [sizeCfg, sizeTrigger, h]
-      have hans := key _ hgt
-      obtain ⟨d1, _, _, _, hd, hres⟩ := hyes hans
-      rcases hres with ⟨x, hx, _, _⟩ | ⟨e, _, hr, _⟩
+holds at most `N` bytes (`N` = the limit in force) — including `N = 0`, a pre-existing file larger
+than `N`, changed-configuration restarts and failed encodes in between — for every roller that
+honours `Roll::roll`'s contract (`RollGone`). -/
+theorem C06_bounded_after_append (path : Path) (roll : RollFn) (hroll : RollGone roll path) (am : Bool) (N : Nat)
+    (d : Disk) (now : Nat) (pre : List Spec06.Op6) (r : Rec) (f : Option Nat) :
+    let s := Spec06.final6 path roll (Spec06.init6 path roll am N d now) pre
+    let e := Spec06.apply6 path roll s (.x (.op (.append r f)))
+    ∀ out, e.1 = some out → out.res = .ok →
+      e.2.st.disk.get? path = none ∨ ∃ a, e.2.st.disk.get? path = some a ∧ a.length ≤ s.limit := by
+  intro s e out hout hok
+  have hwf := Spec06.WF_final6 path roll pre _ (Spec06.WF_init6 path roll am N d now)
+  let cfg := sizeCfg path s.am s.limit roll
+  obtain ⟨_, _, _, _, hno, _, hyes⟩ :=
+    append_post_spec cfg s.st r (faultFn f) hwf rfl _ _ (append cfg s.st r (faultFn f)).1 (append cfg s.st r (faultFn f)).2 rfl rfl rfl
+  have ho : out = (append cfg s.st r (faultFn f)).1 := (Option.some.inj hout).symm
+  by_cases hgt : (openView cfg s.st ++ encBytes r).length > s.limit
+  · have hans : (cfg.trig.fire s.st.tst (openView cfg s.st ++ encBytes r).length s.st.now).1 = .yes := by
+      rw [sizeCfg_fire, if_pos hgt]
+    obtain ⟨d1, _, _, _, hd, hres⟩ := hyes hans
+    rcases hres with ⟨x, hx, _, _⟩ | ⟨e', _, hr, _⟩
+    · left
+      show (append cfg s.st r (faultFn f)).2.disk.get? path = none
+      rw [hd]
+      exact hroll (faultFn f) d1 x _ (by have : (roll path (faultFn f) d1).1 = .ok x := hx; rw [← this]; rfl)
+    · rw [ho, hr] at hok
+      cases hok
+  · have hans : (cfg.trig.fire s.st.tst (openView cfg s.st ++ encBytes r).length s.st.now).1 = .no := by
+      rw [sizeCfg_fire, if_neg hgt]
+    obtain ⟨_, _, ⟨w, _, _, hg, _⟩, _⟩ := hno hans
+    right
+    exact ⟨_, hg, Nat.le_of_not_gt hgt⟩
+
+/-- "Never deferred" survives a FAILING roller: when an append ends in `Err` because the roller
+failed (so the file exceeded the limit), and the roller left the file in place, then the very next
+append shows `|that file| + |record|`, which again exceeds the limit, and invokes the roller again.
+(With a roller that removed the file while reporting `Err` the next append starts from an empty
+file.) -/
+theorem C06_after_failed_roll (path : Path) (am : Bool) (N : Nat) (roll : RollFn) (herr : RollErrKeeps roll path)
+    (s : St Unit) (hwf : WF (sizeCfg path am N roll) s) (r r' : Rec) (fault fault' : Nat → Bool)
+    (hfail : (append (sizeCfg path am N roll) s r fault).1.res = .errRoll) :
+    let cfg := sizeCfg path am N roll
+    let s1 := (append cfg s r fault).2
+    let L := (fileOf cfg s.disk).length + (encBytes r).length
+    L > N ∧
+    ((s1.disk.get? path).map List.length = some L ∨ s1.disk.get? path = none) ∧
+    (append cfg s1 r' fault').1.consult =
+      some ((fileOf cfg s1.disk).length + (encBytes r').length, (fileOf cfg s1.disk).length + (encBytes r').length) ∧
+    ((s1.disk.get? path).map List.length = some L → (append cfg s1 r' fault').1.rolled.isSome) := by
+  intro cfg s1 L
+  obtain ⟨hc, hiff⟩ := C06_rolls_iff_exceeds path am N roll s r fault hwf
+  obtain ⟨_, _, _, _, hno, _, hyes⟩ :=
+    append_post_spec cfg s r fault hwf rfl _ _ (append cfg s r fault).1 (append cfg s r fault).2 rfl rfl rfl
+  have hL : (openView cfg s ++ encBytes r).length = L := by
+    rw [openView_of_opened cfg s hwf.1]; simp [L]
+  rw [hL] at hno hyes
+  have hgt : L > N := by
+    by_cases h : L > N
+    · exact h
+    · exfalso
+      have hans : (cfg.trig.fire s.tst L s.now).1 = .no := by simp [cfg, sizeCfg, sizeTrigger, h]
+      rw [(hno hans).1] at hfail
+      cases hfail
+  have hans : (cfg.trig.fire s.tst L s.now).1 = .yes := by simp [cfg, sizeCfg, sizeTrigger, hgt]
+  obtain ⟨d1, hg1, _, _, hd, hres⟩ := hyes hans
+  have hwf1 : WF cfg s1 := (append_wf cfg s r fault hwf).1
+  obtain ⟨hc1, hiff1⟩ := C06_rolls_iff_exceeds path am N roll s1 r' fault' hwf1
+  have hkeep : (s1.disk.get? path).map List.length = some L ∨ s1.disk.get? path = none := by
+    rcases hres with ⟨x, _, hr, _⟩ | ⟨e, he, _, _⟩
+    · rw [hr] at hfail; cases hfail
+    · have hd' : s1.disk = (roll path fault d1).2 := hd
+      rw [hd']
+      rcases herr fault d1 e _ (by have : (roll path fault d1).1 = .error e := he; rw [← this]) with hk | hk
       · left
-        rw [hd]
-        exact hroll (faultFn f) d1 x _ (by rw [← hx]; rfl)
-      · rw [hout, hr] at hok
-        cases hok
-    · have key : ∀ L, ¬ L > N → ((sizeCfg path am N roll).trig.fire s.tst L s.now).1 = .no := by
-        intro L h; simp [sizeCfg, sizeTrigger, h]
-      have hans := key _ hgt
-      obtain ⟨_, _, ⟨w, _, _, hg, _⟩, _⟩ := hno hans
-      right
-      exact ⟨_, hg, Nat.le_of_not_gt hgt⟩
+        have : d1.get? path = some (openView cfg s ++ encBytes r) := hg1
+        rw [hk, this, Option.map_some, hL]
+      · right; exact hk
+  refine ⟨hgt, hkeep, hc1, ?_⟩
+  intro hsame
+  apply hiff1.mpr
+  have : (fileOf (sizeCfg path am N roll) s1.disk).length = L := by
+    show ((s1.disk.get? path).getD []).length = L
+    cases hg : s1.disk.get? path with
+    | none => rw [hg] at hsame; cases hsame
+    | some a =>
+      rw [hg] at hsame
+      simp only [Option.map_some, Option.some.injEq] at hsame
+      simpa using hsame
+  omega
 
-/-- the contract holds for the delete roller and for the fixed-window roller (any base, count,
-compression) whose slot `base` is not the log file itself -/
-theorem C06_rollers_honour_contract (path : Path) (r : RollerCfg) (h : r.nameOf r.base ≠ path) :
-    RollGone (fun p f d => deleteRoll p f d) path ∧ RollGone (fixedWindowRoll r) path :=
-  ⟨rollGone_delete path, rollGone_fixedWindow r path h⟩
+/-! ### the byte counter is not definitional -/
 
-/-- the size at (re)open: append mode keeps the pre-existing content and counts it, truncate mode
-empties the file -/
-theorem C06_open_seeds_len (cfg : Cfg σ) (d : Disk) (t0 : σ) (now : Nat) :
-    Opened cfg (init cfg d t0 now) (if cfg.appendMode then fileOf cfg d else []) := by
-  have h := (getWriter_spec cfg { disk := d, writer := none, tst := cfg.trig.reinit t0 now, now := now, opened := false } (Or.inl rfl)).1
-  simpa [openView, init, build] using h
+/-- `LogWriter::write` counts what `BufWriter::write` ACCEPTED; `write_all` is the default loop.
+For every oracle of short writes (`File::write` accepting any `1 ≤ n ≤ offered` bytes, per call),
+every writer state and every slice: the loop terminates, the counter has advanced by EXACTLY the
+length of the slice, and the bytes held by the writer (on disk ++ buffered) are the old ones
+followed by the slice — each byte handed on exactly once. -/
+theorem C06_write_all_accounting (acc : Write06.Accept) (hacc : Write06.GoodAccept acc) (w : Write06.LW) (data : Bytes) :
+    ∃ w', Write06.writeAll acc data.length w data = some w' ∧ w'.len = w.len + data.length ∧
+      w'.bf.logical = w.bf.logical ++ data :=
+  Write06.writeAll_spec acc hacc data.length w data (Nat.le_refl _)
+
+/-- The appender built on the counting writer and the `write_all` loop does exactly what the
+model's `append` does, for every short-write oracle, every trigger, roller, state and record: same
+result, same size shown to the policy, same state. Hence every theorem of this file about `append`
+is a theorem about the counting appender — the model's `len := len + |record|` is a consequence of
+`len += accepted`, not an assumption. -/
+theorem C06_counting_appender_is_model (acc : Write06.Accept) (hacc : Write06.GoodAccept acc) (cfg : Cfg σ) (s : St σ)
+    (r : Rec) (fault : Nat → Bool) :
+    Write06.appendX acc cfg s r fault = some (append cfg s r fault) :=
+  Write06.appendX_eq acc hacc cfg s r fault
+
+/-- What the loop theorem excludes (witness): a counter that forgets the bytes `BufWriter` writes
+through (records ≥ 1 KiB — the seeded change "count at flush") is short by the whole record. -/
+theorem C06_forgetful_counter_breaks :
+    let w : Write06.LW := { bf := { disk := [], buf := [] }, len := 0, calls := 0 }
+    let data : Bytes := List.replicate 1024 7
+    (Write06.write (fun _ n => n) w data).2.len = 1024 ∧ (Write06.writeForgetful (fun _ n => n) w data).2.len = 0 := by
+  decide +kernel
+
+/-! ### the rollers -/
+
+/-- both contracts hold for the delete roller and for the fixed-window roller (any base, count,
+compression) whose slot names are injective inside the window and different from the log path, and
+are preserved by the harness's "Err after the work" wrapper -/
+theorem C06_rollers_honour_contract (path : Path) (r : RollerCfg) (decode : Bytes → Bytes)
+    (hdec : ∀ x, decode (r.codec x) = x)
+    (hinj : ∀ i j, i < r.count → j < r.count → r.nameOf (r.base + i) = r.nameOf (r.base + j) → i = j)
+    (hfile : ∀ j, j < r.count → r.nameOf (r.base + j) ≠ path) (hbase : r.nameOf r.base ≠ path) :
+    (RollGone (fun p f d => deleteRoll p f d) path ∧ RollErrKeeps (fun p f d => deleteRoll p f d) path) ∧
+    (RollGone (fixedWindowRoll r) path ∧ RollErrKeeps (fixedWindowRoll r) path) ∧
+    (RollGone (Spec17.lateWrap (fixedWindowRoll r)) path ∧ RollErrKeeps (Spec17.lateWrap (fixedWindowRoll r)) path) ∧
+    (RollGone (Spec17.lateWrap (fun p f d => deleteRoll p f d)) path ∧
+      RollErrKeeps (Spec17.lateWrap (fun p f d => deleteRoll p f d)) path) := by
+  have hd1 := rollGone_delete path
+  have hd2 := rollErrKeeps_of_contract _ path _ (rollContract_delete path)
+  have hf1 := rollGone_fixedWindow r path hbase
+  have hf2 := rollErrKeeps_of_contract _ path _ (rollContract_fixedWindow r path decode hdec hinj hfile)
+  exact ⟨⟨hd1, hd2⟩, ⟨hf1, hf2⟩, ⟨rollGone_lateWrap _ path hf1, rollErrKeeps_lateWrap _ path hf1 hf2⟩,
+    ⟨rollGone_lateWrap _ path hd1, rollErrKeeps_lateWrap _ path hd1 hd2⟩⟩
+
+/-- NEGATIVE WITNESS (outside the property's quantifier, which ranges over limits, records,
+pre-existing sizes and restarts, not over roller patterns — recorded because the code accepts the
+configuration silently): a fixed-window roller with ONE slot whose name IS the log path (log
+`app.0.log`, pattern `app.{}.log`, base 0, count 1) "rotates" by renaming the file onto itself:
+`roll` returns `Ok` with the file still in place (`Roll::roll`'s contract broken), so with limit 0 the
+file is over the limit after a successful append and is never rotated away. -/
+theorem C06_self_archiving_roller_unbounded :
+    let p : Path := ['a']
+    let rc : RollerCfg := { nameOf := fun _ => p, base := 0, count := 1 }
+    let cfg := sizeCfg p true 0 (fixedWindowRoll rc)
+    let a := append cfg (init cfg Disk.empty () 0) [[1, 2, 3]] (fun _ => false)
+    ¬ RollGone (fixedWindowRoll rc) p ∧
+    a.1 = { res := .ok, consult := some (3, 3), rolled := some true } ∧ a.2.disk.get? p = some [1, 2, 3] := by
+  intro p rc cfg a
+  refine ⟨?_, by decide +kernel, by decide +kernel⟩
+  intro h
+  have := h (fun _ => false) (Disk.empty.set p [1]) (Disk.empty.set p [1]) (Disk.empty.set p [1]) rfl
+  revert this
+  decide +kernel
 
 /-! ### non-vacuity (tests on samples) -/
 
@@ -143,6 +355,34 @@ example :
     let cfg := sizeCfg demoPath true 0 (fun p f d => deleteRoll p f d)
     let s0 := init cfg (Disk.empty.set demoPath [1, 2, 3]) () 0
     (append cfg s0 [[9]] (fun _ => false)).1 = { res := .ok, consult := some (4, 4), rolled := some true } := by
+  decide +kernel
+
+/-- truncate mode over pre-existing content: the open empties the file, the counter starts at 0 -/
+example :
+    let cfg := sizeCfg demoPath false 7 (fun p f d => deleteRoll p f d)
+    let s0 := init cfg (Disk.empty.set demoPath [1, 2, 3, 4, 5, 6, 7, 8, 9]) () 0
+    s0.disk.get? demoPath = some [] ∧ (append cfg s0 [[9]] (fun _ => false)).1.consult = some (1, 1) := by
+  decide +kernel
+
+/-- a restart with a LOWERED limit (7 → 2) in append mode: the 5 bytes stay, the next 1-byte record
+shows 6 > 2 and rolls -/
+example :
+    let s0 := Spec06.init6 demoPath (fun p f d => deleteRoll p f d) true 7 Disk.empty 0
+    let tr := Spec06.trace6 demoPath (fun p f d => deleteRoll p f d) s0
+      [.x (.op (.append [[1, 2, 3, 4, 5]] none)), .reconf true 2, .x (.op (.append [[6]] none))]
+    tr.map (fun e => e.1.map (fun o => (o.consult, o.rolled))) =
+      [some (some (5, 5), none), none, some (some (6, 6), some true)] := by
+  decide +kernel
+
+/-- a failed roll, then the reopen: the file stays over the limit and the next append rolls again -/
+example :
+    let rc : RollerCfg := { nameOf := fun i => ['a', '.', Char.ofNat (48 + i)], base := 0, count := 2 }
+    let cfg := sizeCfg demoPath true 3 (fixedWindowRoll rc)
+    let s0 := init cfg Disk.empty () 0
+    let a1 := append cfg s0 [[1, 2, 3, 4]] (faultFn (some 0))
+    let a2 := append cfg a1.2 [[5]] (fun _ => false)
+    a1.1 = { res := .errRoll, consult := some (4, 4), rolled := some false } ∧
+      a2.1 = { res := .ok, consult := some (5, 5), rolled := some true } := by
   decide +kernel
 
 /-- limits in the upper half of the u64 range never roll -/
@@ -157,6 +397,13 @@ example :
     let s0 := init cfg Disk.empty () 0
     let s1 := (append cfg s0 [[1, 2, 3], [4, 5, 6, 7]] (fun _ => false))
     s1.1.rolled = none ∧ s1.1.consult = some (7, 7) ∧ (append cfg s1.2 [[8]] (fun _ => false)).1.rolled = some true := by
+  decide +kernel
+
+/-- the counting writer under a miserly oracle (one byte per `File::write`): a 1030-byte slice
+still counts 1030 -/
+example :
+    (Write06.writeAll (fun _ _ => 1) 1030 { bf := { disk := [], buf := [] }, len := 5, calls := 0 }
+      (List.replicate 1030 1)).map (·.len) = some 1035 := by
   decide +kernel
 
 end Log4rs.Rolling
